@@ -360,7 +360,8 @@ class MemOrchestrator(BaseOrchestrator):
             reverse=True,
         )
 
-        # Apply pagination
+        # Apply pagination (negative values would count from the end of the list)
+        offset, limit = max(offset, 0), max(limit, 0)
         return sorted_ids[offset : offset + limit]
 
     def count_invocations(
